@@ -125,7 +125,7 @@ IsHonest(sc) == /\ \A j \in DOMAIN sc : sc[j].seq = j - 1
                 /\ Good(sc) # {}
                 /\ sc[Len(sc)].part = FinPart /\ \A j \in 1..(Len(sc) - 1) : sc[j].part # FinPart
                 /\ Len(sc) >= 2 /\ sc[2].part.k = "Info"
-HeightOf(sc) == sc[1].part.h      \* of an honest script
+HeightOf(sc) == IF sc[1].part.k = "Init" THEN sc[1].part.h ELSE 0      \* of an honest script
 
 AllScripts == UNION {Choices[s] : s \in Streams}
 GoodOf == [sc \in AllScripts |-> Good(sc)]
